@@ -81,12 +81,16 @@ def gen_cases(chk, quick, factor):
     # (1) exhaustive: two connections, every interleaving of the four handshake phases of each
     for lname, conns in LAYOUTS2:
         for names in ((1, 2), (2, 1)):
-            for pos in itertools.combinations(range(8), 4):
-                seqs = [[tok(0, t) for ph in PHASES for t in ph], [tok(1, t) for ph in PHASES for t in ph]]
-                ph = [[[tok(k, t) for t in p] for p in PHASES] for k in (0, 1)]
+            # the cross dial also with a fifth phase: the two Ready frames of the initial synchronisation
+            # (so that a link's Ready is delivered before / after the other link's Ack — frames of a
+            # session that is about to be stopped are flushed and delivered in some schedules)
+            phases = PHASES + [["f", "b"]] if lname == "simultaneous" else PHASES
+            np = len(phases)
+            for pos in itertools.combinations(range(2 * np), np):
+                ph = [[[tok(k, t) for t in p] for p in phases] for k in (0, 1)]
                 i0 = i1 = 0
                 tokens = []
-                for slot in range(8):
+                for slot in range(2 * np):
                     if slot in pos:
                         tokens += ph[0][i0]
                         i0 += 1
@@ -102,6 +106,20 @@ def gen_cases(chk, quick, factor):
             for conns in ([(1, 0), (2, 0)], [(0, 1), (0, 2)], [(1, 0), (0, 2)], [(0, 1), (2, 0)]):
                 cases.append({"kind": "casevariants", "names": names, "conns": conns, "tokens": ["o0", "F", "o1", "U"], "stalled": [1]})
                 cases.append({"kind": "casevariants", "names": names, "conns": conns, "tokens": ["o0", "o1", "U"], "stalled": []})
+    # (1c) connection loss at every frame boundary of the second handshake: one link is established
+    #      (or not yet), the other one proceeds p frames and is cut; also the established one is cut
+    for conns in ([(0, 1), (1, 0)], [(1, 0), (0, 1)], [(0, 1), (0, 1)]):
+        for names in ((1, 2), (2, 1)):
+            for first_done in (True, False):
+                for victim in (0, 1):
+                    other = 1 - victim
+                    for p in range(0, len(FULL) + 1):
+                        toks = [tok(other, t) for t in FULL] if first_done else [tok(other, t) for t in FULL[:3]]
+                        toks += [tok(victim, t) for t in FULL[:p]] + [f"X{victim}", "U"]
+                        for k in (0, 1):
+                            if f"o{k}" not in toks:
+                                toks.insert(0, f"o{k}")
+                        cases.append({"kind": "cut", "names": names, "conns": conns, "tokens": toks, "stalled": [], "cut": [victim]})
     # (2) random frame-level interleavings, all layouts, prefixes, staggered opens
     n = (120 if quick else 3000) * factor
     for _ in range(n):
@@ -489,7 +507,30 @@ def stage(chk, build, quick, factor, distinct):
     except RuntimeError as e:
         print(f"[{chk.prop}] two-node election engine did not complete: {str(e)[-1200:]}")
         return None
-    outs, louts, touts = allouts[:len(cases)], allouts[len(cases):len(cases) + len(lcases)], allouts[len(cases) + len(lcases):]
+    # a line `stuck "<why>"`: the real nodes wedged / panicked on this scenario (an observation with the
+    # scenario as failing input); `skipped`: not evaluated after that in the same batch
+    all_lines = ([line_of(c["names"], c["conns"], c["tokens"]) for c in cases] + [legacy_line(c) for c in lcases]
+                 + [tcp_line(c) for c in tcases])
+    keep = []
+    for idx, out in enumerate(allouts):
+        if out.startswith("skipped"):
+            chk.count("net.skipped_after_stuck")
+            keep.append(False)
+        elif out.startswith("stuck"):
+            chk.coverage["evaluations"] += 1
+            chk.violation("real NodeServers: the run got stuck / crashed: " + out[:200],
+                          "C18 two-node engine: the real nodes could not finish the scenario\n"
+                          + json.dumps({"kind": "two-node", "harness_line": all_lines[idx], "observation": out}, indent=1))
+            keep.append(False)
+        else:
+            keep.append(True)
+    n1, n2 = len(cases), len(cases) + len(lcases)
+    outs = [o for o, k in zip(allouts[:n1], keep[:n1]) if k]
+    cases = [c for c, k in zip(cases, keep[:n1]) if k]
+    louts = [o for o, k in zip(allouts[n1:n2], keep[n1:n2]) if k]
+    lcases = [c for c, k in zip(lcases, keep[n1:n2]) if k]
+    touts = [o for o, k in zip(allouts[n2:], keep[n2:]) if k]
+    tcases = [c for c, k in zip(tcases, keep[n2:]) if k]
     # ---- real TCP / transitive mode
     for c, out in zip(tcases, touts):
         why = tcp_oracle(c, parse_term(out))
@@ -563,6 +604,25 @@ def stage(chk, build, quick, factor, distinct):
         snap = o["snaps"][si]
         sess = {n[1]: n[2] for n in snap[1]}
         ends = {e[1]: (e[2] == "true", e[3] == "true") for e in snap[2]}
+        if c.get("cut"):
+            # a connection was lost mid-way: the survivor need not be the model's choice (the lost one may
+            # already have retired it), but the two nodes must AGREE: the same single connection or none,
+            # open at both ends, everything else closed at both ends
+            why = []
+            mx = [s[1] for s in sess.get(x, []) if s[4] == c["names"][y]]
+            my = [s[1] for s in sess.get(y, []) if s[4] == c["names"][x]]
+            if len(mx) > 1 or len(my) > 1 or sorted(mx) != sorted(my):
+                why.append(f"after the loss of connection {c['cut']} node {x} keeps connections {mx} to the peer and node {y} keeps {my}: "
+                           f"they disagree")
+            for k in cand:
+                d, a = ends[k]
+                if k in mx and k in my and not (d and a):
+                    why.append(f"the kept connection {k} is closed at one end (dialler open={d}, acceptor open={a})")
+                if k not in mx and k not in my and (d or a) and k not in c["cut"]:
+                    why.append(f"connection {k} is kept by nobody but still open (dialler open={d}, acceptor open={a})")
+            if why:
+                bad.setdefault(ci, []).append(f"snapshot {si}, nodes {x}/{y}: " + "; ".join(why))
+            continue
         for node, peer in ((x, y), (y, x)):
             mine = [s for s in sess.get(node, []) if s[4] == c["names"][peer]]
             if len(mine) != 1:
@@ -597,6 +657,18 @@ def stage(chk, build, quick, factor, distinct):
             if (node, sid) not in survivors and 2 in kinds and 3 not in kinds:
                 why.append(f"node {node}: session {sid} reported ready, is not the survivor and was never disconnected")
         for (x, y), ks in pairs_of(c["conns"]).items():
+            if c.get("cut"):
+                continue        # with a lost connection the last ready session may be the lost one
+            # a link is reported ready on one node only if its other end was elected on the peer at some
+            # time (the peer runs its synchronisation and sends Ready only for an elected, authenticated
+            # link, and that is when it publishes `authenticated`): no ready for a link that lost the
+            # election on the peer as soon as it authenticated there
+            for node, peer in ((x, y), (y, x)):
+                for (n, kind, sid, srv, conn) in o["events"]:
+                    if n == node and kind == 2 and conn in ks:
+                        if not any(n2 == peer and k2 == 1 and c2 == conn for (n2, k2, s2, v2, c2) in o["events"]):
+                            why.append(f"node {node} reports connection {conn} ready, but node {peer} never elected "
+                                       f"(published authenticated for) its end of that connection")
             for node in (x, y):
                 readies = [(idx, sid) for idx, (n, kind, sid, srv, conn) in enumerate(o["events"])
                            if n == node and kind == 2 and conn in ks]
